@@ -248,6 +248,12 @@ class FreshSem(Semantics):
 
     def __init__(self) -> None:
         self.stores: list[tuple[ast.AST, str, bool, Any]] = []
+        self.understood: set[int] = set()  # registry mentions whose meaning was taken into account
+
+    def _seen(self, e: ast.AST) -> None:
+        for n in ast.walk(e):
+            if dotted(n) == REG:
+                self.understood.add(id(n))
 
     def _assign(self, state: frozenset, name: str) -> set:
         return {f for f in state if not (f[0] == "getvar" and f[1] == name) and not (f[0] == "popped" and f[1] == name)
@@ -266,8 +272,10 @@ class FreshSem(Semantics):
                 elif isinstance(v, ast.Call) and isinstance(v.func, ast.Attribute) and dotted(v.func.value) == REG and v.func.attr == "get" and v.args:
                     if len(v.args) == 1 or is_none(v.args[1]):
                         s.add(("getvar", tg.id, norm(v.args[0])))
+                        self._seen(v)
                 elif isinstance(v, ast.Call) and isinstance(v.func, ast.Attribute) and dotted(v.func.value) == REG and v.func.attr == "pop" and v.args:
                     s.add(("popped", tg.id))
+                    self._seen(v)
                 elif isinstance(v, ast.IfExp) and isinstance(v.test, ast.Call) and dotted(v.test.func) == "_unregister" and is_none(v.orelse) \
                         and norm(v.body) == norm(v.test.args[0]):
                     s.add(("popped", tg.id))
@@ -277,21 +285,26 @@ class FreshSem(Semantics):
                     s.add(("isnone", tg.id))
                 elif isinstance(v, ast.Name):
                     s.add(("notnone", tg.id)) if v.id == "self" else None
-                    # V = X : keys spelled through V are keys of X
+                    # V = X : keys spelled through V are keys of X, and a key known to be free stays free under its new name
                     for fct in list(state):
                         if fct[0] == "fresh" and fct[1] == f"{v.id}.id":
                             s.add(("fresh", f"{tg.id}.id"))
+                        if fct[0] == "fresh" and fct[1] == v.id:
+                            s.add(("fresh", tg.id))
             elif isinstance(tg, ast.Subscript) and dotted(tg.value) == REG:
                 k = norm(tg.slice)
+                self._seen(tg.value)
                 self.stores.append((st, k, ("fresh", k) in state, sorted(map(str, state))))
         elif isinstance(st, ast.Expr) and isinstance(st.value, ast.Call):
             c = st.value
             if isinstance(c.func, ast.Attribute) and dotted(c.func.value) == REG and c.func.attr == "pop" and c.args:
                 s.add(("fresh", norm(c.args[0])))
+                self._seen(c)
         elif isinstance(st, ast.Delete):
             for t in st.targets:
                 if isinstance(t, ast.Subscript) and dotted(t.value) == REG:
                     s.add(("fresh", norm(t.slice)))
+                    self._seen(t)
         return (frozenset(s),)
 
     def cond(self, state, test):
@@ -323,6 +336,7 @@ class FreshSem(Semantics):
         if isinstance(c, ast.Compare) and len(c.ops) == 1:
             op, l, r = c.ops[0], c.left, c.comparators[0]
             if isinstance(op, (ast.In, ast.NotIn)) and dotted(r) == REG:
+                self._seen(r)
                 if isinstance(op, ast.NotIn) == pol:
                     out.add(("fresh", norm(l)))
             if isinstance(op, (ast.Is, ast.IsNot)) and (is_none(r) or is_none(l)):
@@ -334,8 +348,10 @@ class FreshSem(Semantics):
                             out.add(("fresh", fct[2]))
                         if fct[0] == "popped" and fct[1] == v.id and not is_none_true:
                             out.add(("fresh", f"{v.id}.id"))
-                if isinstance(v, ast.Call) and isinstance(v.func, ast.Attribute) and dotted(v.func.value) == REG and v.func.attr == "get" and v.args and is_none_true:
-                    out.add(("fresh", norm(v.args[0])))
+                if isinstance(v, ast.Call) and isinstance(v.func, ast.Attribute) and dotted(v.func.value) == REG and v.func.attr == "get" and v.args:
+                    self._seen(v)
+                    if is_none_true:
+                        out.add(("fresh", norm(v.args[0])))
 
 
 def r_reg_fresh(ck: Checker) -> None:
@@ -357,6 +373,11 @@ def r_reg_fresh(ck: Checker) -> None:
             what = f"{q}: the key of a registry store is proven free on every path (not in registry / unique-id helper / get() is None / removed on this path)"
             if all(oks):
                 ck.holds("R-REG-FRESH", f, st, what, evaluations=len(oks), key=k)
+            elif [n_ for n_ in ast.walk(f.node) if dotted(n_) == REG and id(n_) not in sem.understood
+                  and not (isinstance(getattr(n_, "ctx", None), ast.Load) and False)]:
+                # some use of the registry in this function is spelled in a way the analysis does not interpret: no proof is not a disproof
+                odd = [n_ for n_ in ast.walk(f.node) if dotted(n_) == REG and id(n_) not in sem.understood]
+                raise Unsupported(f"{q}: a registry access at line {getattr(odd[0], 'lineno', '?')} is not interpreted; freshness of {REG}[{k}] undecided", st)
             else:
                 ck.violation("R-REG-FRESH", f, st, what, evaluations=len(oks), construct=f"{q}: {REG}[{k}] stored without a freshness proof on some path")
     # the unique-id helper returns only a key that is not registered
